@@ -14,6 +14,7 @@ import Ymq.Lemmas.WiedemannDetz
 import Ymq.Lemmas.WiedemannWitness
 import Ymq.Lemmas.WiedemannKrylov
 import Ymq.Lemmas.WiedemannPrimes
+import Ymq.Lemmas.WiedemannKer
 import Ymq.Props.C06
 
 namespace Ymq.C19Wied
@@ -309,5 +310,66 @@ theorem detz_of_detp_selected_partial (isprime : ℕ → Option Bool) (hsound : 
   intro q hq
   obtain ⟨a, _, c⟩ := c4 q (hsub.subset hq)
   exact ⟨a.one_lt, lt_trans c (by unfold Ymq.IntMat.U64; norm_num)⟩
+
+
+/-! ### the kernel path: `mulpbig`, `ker_pbig`, `ker_p256` -/
+
+/-- the asserts of `SparseMat::new` -/
+theorem mkMat_valid (rows m : Mat) (h : mkMat rows = some m) :
+    m = rows ∧ m.length < 65536 ∧ ∀ r ∈ m, ∀ je ∈ r, je.1 < m.length ∧ -32768 ≤ je.2 ∧ je.2 ≤ 32767 := by
+  unfold mkMat at h
+  split at h
+  · simp at h
+  · split at h
+    · rename_i h1 h2
+      have := Option.some.inj h
+      subst this
+      refine ⟨rfl, by omega, fun r hr je hje => ?_⟩
+      rw [List.all_eq_true] at h2
+      have := h2 r hr
+      rw [List.all_eq_true] at this
+      have := this je hje
+      simp only [Bool.and_eq_true, decide_eq_true_eq] at this
+      exact ⟨this.1.1, this.1.2, this.2⟩
+    · simp at h
+
+/-- **`ker_p256` is sound.** For a validated matrix, a modulus `p < 2^255` and whatever start
+vector `v0` of reduced residues the generator supplied (`gen_range(1..p)` for `p < 2^64`, a `u64`
+otherwise): if `ker_p256(p)` returns `Some(v)` then `v` has `size` entries, all `< p`, not all
+zero, and `M · v = 0` over `ZMod p`. (The code checks this itself with its two final asserts; the
+theorem says that the check is exact: `mulpbig` either panics on an overflow or returns the true
+product, in each of the four integer widths of the dispatch.) No primality of `p` is needed. -/
+theorem ker_p256_sound (rows m : Mat) (hm : mkMat rows = some m) (p : ℕ) (hp : p < 2 ^ 255)
+    (v0 : List ℕ) (hv0 : ∀ x ∈ v0, x < p) (v : List ℕ) (h : kerP256 m p v0 = some (some v)) :
+    v.length = m.length ∧ (∀ j, v.getD j 0 < p) ∧ (∃ x ∈ v, x ≠ 0) ∧
+      matOf p m.length m * colOf p m.length v = 0 := by
+  obtain ⟨_, _, hv⟩ := mkMat_valid rows m hm
+  obtain ⟨⟨a, b⟩, c, d⟩ := kerBig_sound (kerWidth m p) m (fun r hr je hje => (hv r hr je hje).1) p
+    (kerWidth_bound m p hp) v0 hv0 v h
+  exact ⟨a, b, c, d⟩
+
+/-- **`ker_p256` returns `None`** exactly when Berlekamp–Massey succeeds on the Krylov sequence
+and both `charpoly[size]` and `charpoly[size - 1]` vanish ("double root"). -/
+theorem ker_p256_none_iff (m : Mat) (p : ℕ) (v0 : List ℕ) :
+    kerP256 m p v0 = some none ↔
+      ∃ seq cp, krylovBig (kerWidth m p) m p (2 * m.length + 1) (startVec m.length 0 1) [] = some seq ∧
+        bmBig p seq = some cp ∧ cp[m.length]? = some 0 ∧ cp[m.length - 1]? = some 0 :=
+  kerBig_none_iff (kerWidth m p) m p v0
+
+/-- **Panic classes of `ker_p256`** (besides overflow outside the documented widths and the two
+final asserts): (i) `charpoly[size] ≠ 0`, i.e. the matrix is nonsingular modulo `p` or the sequence
+is deficient — `assert!(c0.is_zero())`; (ii) every panic of `berlekamp_massey_big`, in particular
+the degenerate Krylov sequence `[a,0,...,0]` (row 0 of the matrix orthogonal to the Krylov space:
+the recorded `sparse-det-degenerate-sequence-panic`). -/
+theorem ker_p256_panics (m : Mat) (p : ℕ) (v0 seq : List ℕ)
+    (h1 : krylovBig (kerWidth m p) m p (2 * m.length + 1) (startVec m.length 0 1) [] = some seq) :
+    (∀ cp c0, bmBig p seq = some cp → cp[m.length]? = some c0 → c0 ≠ 0 → kerP256 m p v0 = none) ∧
+    (p.Prime → p < 2 ^ 244 → (∀ x ∈ seq, x < p) → seq.getD 0 0 ≠ 0 →
+      (∀ i, 1 ≤ i → seq.getD i 0 = 0) → kerP256 m p v0 = none) := by
+  refine ⟨fun cp c0 h2 h3 hc => kerBig_panic_of_c0 _ m p v0 seq cp c0 h1 h2 h3 hc, ?_⟩
+  intro hp hlt hr ha hz
+  apply kerBig_panic_of_bm _ m p v0 seq h1
+  have := Fact.mk hp
+  exact (core_none_iff (bigOps_ok p hlt) seq hr).mpr (Or.inr (Or.inl ⟨ha, hz⟩))
 
 end Ymq.C19Wied
